@@ -62,12 +62,23 @@ func TestC11(t *testing.T) {
 				t.Fatalf("open %s: %v", cfg, err)
 			}
 			offs := []ebu.Offset{ebu.OffsetOldest}
+			// a second store object on the same durable state (another service / process) appends every
+			// other event; all replays read through the first object
+			writers := []ebu.EventStore{st.Store}
+			if st.Reopen != nil {
+				sib, err := st.Reopen()
+				if err != nil {
+					t.Fatalf("reopen %s: %v", cfg, err)
+				}
+				defer sib.Close()
+				writers = append(writers, sib.Store)
+			}
 			for i := 1; i <= L; i++ {
 				typ := "c11.A"
 				if i%3 == 0 {
 					typ = "c11.B"
 				}
-				o, err := st.Store.Append(context.Background(), &ebu.Event{Type: typ, Data: json.RawMessage(fmt.Sprintf(`{"ID":%d}`, i)), Timestamp: time.Unix(int64(1700000000+i), 0).UTC()})
+				o, err := writers[(i+1)%len(writers)].Append(context.Background(), &ebu.Event{Type: typ, Data: json.RawMessage(fmt.Sprintf(`{"ID":%d}`, i)), Timestamp: time.Unix(int64(1700000000+i), 0).UTC()})
 				if err != nil {
 					t.Fatalf("append: %v", err)
 				}
